@@ -249,7 +249,60 @@ def self_test():
     assert abs(C[0, 0] - R[0, 0]) < 1e-15 and np.allclose(C, C.T)
 
 
+# ------------------------------------------------------------------ the optional FFT= plan object
+
+class Plan:
+    """What an accelerated FFT object (pyfftw style) is: a callable that owns its output buffer and returns that same
+    array from every call.  Computes the inverse transform the default path computes."""
+
+    def __init__(self):
+        self.out = None
+        self.calls = 0
+
+    def __call__(self, x):
+        x = np.asarray(x)
+        if self.out is None or self.out.shape != x.shape:
+            self.out = np.empty(x.shape, dtype=complex)
+        self.out[...] = np.fft.ifft2(x)
+        self.calls += 1
+        return self.out
+
+
+@st.composite
+def plan_cases(draw):
+    N = 2 * draw(st.integers(1, 12))
+    delta = draw(gen.logfloat(0.01, 1.0))
+    return {"N": N, "delta": delta, "r0": draw(gen.logfloat(0.05, 1.0)), "L0": N * delta * draw(gen.logfloat(0.2, 50.0)), "l0": delta * draw(gen.logfloat(0.01, 1.0)),
+            "sh": draw(st.booleans()), "seed": draw(st.integers(0, 2**31)), "k": draw(gen.logfloat(0.3, 3.0))}
+
+
+def plan_body(ctx, p):
+    """A screen made through a user-supplied FFT object is the screen the default path makes from the same draws, and it
+    stays that screen when the same FFT object is used again (two layers of one atmosphere)."""
+    ps = PSm()
+    f = ps.ft_sh_phase_screen if p["sh"] else ps.ft_phase_screen
+    N, delta, r0, L0, l0, seed = p["N"], p["delta"], p["r0"], p["L0"], p["l0"], p["seed"]
+    ctx.case(p, nontrivial=True, classes=["sub_harmonic" if p["sh"] else "plain"])
+    plan = Plan()
+    with warnings.catch_warnings():
+        warnings.simplefilter("ignore")
+        ref = f(r0, N, delta, L0, l0, seed=seed)
+        a = f(r0, N, delta, L0, l0, FFT=plan, seed=seed)
+        a0 = np.array(a, copy=True)
+        b = f(r0 * p["k"], N, delta, L0, l0, FFT=plan, seed=seed)
+        b0 = np.array(b, copy=True)
+        c = f(r0, N, delta, L0, l0, FFT=plan, seed=seed + 1)
+    ctx.require(plan.calls >= 3, "the FFT object handed over was not used")
+    sc = float(np.max(np.abs(ref))) or 1.0
+    ctx.close(a0, ref, 1e-10, "screen made through a user-supplied FFT object == screen made by the default path from the same seed", scale=sc, name="FFT object vs default")
+    ctx.equal(a, a0, "a screen made through a user-supplied FFT object was rewritten when the same FFT object made the next screen")
+    ctx.equal(b, b0, "a screen made through a user-supplied FFT object was rewritten when the same FFT object made the next screen")
+    ctx.close(b0, a0 * p["k"] ** (-5.0 / 6), 1e-10, "amplitude scales as r0^(-5/6) for fixed draws (FFT object)", scale=sc * p["k"] ** (-5.0 / 6), name="r0 scaling through FFT object")
+    ctx.require(not np.array_equal(c, a0), "different seeds give the same screen through a user-supplied FFT object")
+
+
 LAWS = [
+    given_law("fft_object", plan_cases(), plan_body, {"quick": 60, "thorough": 600}, shards={"quick": 2, "thorough": 8}),
     given_law("hi_covariance_xl", cfgs(44), hi_body, {"quick": 0, "thorough": 2}, shards={"quick": 1, "thorough": 16}),
     given_law("hi_covariance", cfgs(24), hi_body, {"quick": 12, "thorough": 100}, shards={"quick": 6, "thorough": 16}),
     given_law("sub_harmonics", cfgs(16), sh_body, {"quick": 8, "thorough": 80}, shards={"quick": 6, "thorough": 16}),
